@@ -15,7 +15,7 @@ def run(tree, rep, tier):
     flow = Flow(tree)
     flow.describe(rep)
     K1_loader(rep, flow, T, tier, mode="cost")
-    K2_reader(rep, flow)
+    K2_reader(rep, flow, tables=T)
     P6_conservation(rep, flow, APIS, tables=T)
     NI1_sign_independence(rep, flow, roots=class_id_roots(flow), what="the class-id computation (classifier)")
     rep.trusted += ["Q1", "Q2", "Q3", "Q4"]
